@@ -15,10 +15,10 @@ Local Open Scope Z_scope.
 Ltac Zify.zify_post_hook ::= Z.to_euclidean_division_equations.
 
 (* every boot file comes back with the number of blocks it was written with *)
-Definition bp_blocks_kept_gen (fx : bool) (s : bstate) : Prop :=
+Definition bp_blocks_kept_gen (fx : bp_code) (s : bstate) : Prop :=
   forall i, 0 < erefs i (bboot s) ->
     blocks_of (len_of i (linodes (bl (reopened_gen fx s)))) = blocks_of (len_of i (linodes (bl s))).
-Definition bp_blocks_kept : bstate -> Prop := bp_blocks_kept_gen true.
+Definition bp_blocks_kept : bstate -> Prop := bp_blocks_kept_gen Cur.
 
 (* ---- tables ---------------------------------------------------------------------------------------------- *)
 
@@ -78,7 +78,7 @@ Qed.
 (* ---- the invariant ---------------------------------------------------------------------------------------- *)
 
 Section Reopen.
-  Variable fx : bool.
+  Variable fx : bp_code.
   Variable s : bstate.
   Hypothesis HI : BInv s.
   Hypothesis HF : BFix s.
@@ -98,6 +98,10 @@ Section Reopen.
 
   Lemma bp_t_split : t = t1 ++ t2.
   Proof. unfold t, r, reopened_gen, t2. destruct (bboot s); cbn [bl linodes]; [reflexivity|rewrite app_nil_r; reflexivity]. Qed.
+
+  Lemma bp_t_some b : bboot s = Some b ->
+    t = t1 ++ bp_hidden fx s (binos b) (combine (binos b) (cat_scs (bcat b))) (bp_nonempty_ids t1).
+  Proof. intros Hb. rewrite bp_t_split. unfold t2. rewrite Hb. reflexivity. Qed.
 
   Lemma bp_lt j : In j (ids tbl) -> (j < nx)%nat.
   Proof.
@@ -196,4 +200,115 @@ Section Reopen.
     assert (Hp : bp_placed s i) by (apply (bp_tbl_placed i v HN H1 H2)).
     destruct (bp_placed_in_t i Hp) as (v' & Hin & Hb). rewrite (bp_t_len i v' Hin). exact Hb.
   Qed.
+
+  (* ---- the fields of the reopened state ---- *)
+  Lemma bp_r_bl : bl r = {| lroot := lmap_ino (bp_relabel nx tbl) (lroot l); linodes := t; lnext := S (bp_fake nx);
+                            lptr_size := lptr_size l; lptr_ext := lptr_ext l; lspace := lspace l |}.
+  Proof. unfold t, r, reopened_gen. destruct (bboot s); reflexivity. Qed.
+
+  Lemma bp_r_erefs k : erefs k (bboot r) = erefs k (bboot s).
+  Proof. unfold r, reopened_gen. destruct (bboot s); reflexivity. Qed.
+
+  Lemma bp_r_boot2 : boot2 (bboot r) = boot2 (bboot s).
+  Proof. unfold r, reopened_gen. destruct (bboot s); reflexivity. Qed.
+
+  Lemma bp_rec_lt nm i st : In (LFile nm i st) (lvisit l) -> (i < nx)%nat /\ (st < nx)%nat.
+  Proof.
+    intros H. split.
+    - destruct (Nat.lt_ge_cases i nx) as [Hl|Hl]; [exact Hl|]. destruct (bi_fresh s HI i Hl) as [H0 _].
+      pose proof (bp_visit_ref l nm i st H). unfold l in *. lia.
+    - destruct HS as [_ S2]. rewrite Forall_forall in S2. apply S2. eapply bp_stamps_in. exact H.
+  Qed.
+
+  Lemma bp_relabel_lt nm i st : In (LFile nm i st) (lvisit l) -> (bp_relabel nx tbl i st < nx + nx)%nat.
+  Proof.
+    intros H. destruct (bp_rec_lt nm i st H) as [H1 H2]. unfold bp_relabel, bp_fresh.
+    destruct (has_ino i tbl && (len_of i tbl =? 0)); [destruct (Nat.eqb st i)|]; lia.
+  Qed.
+
+  Lemma bp_t_ids_lt k : In k (ids t) -> (k < nx + nx)%nat.
+  Proof.
+    rewrite bp_t_split. unfold ids. rewrite map_app. intros H. apply in_app_or in H. destruct H as [H|H].
+    - apply in_map_iff in H. destruct H as ([k' v] & Hk & Hin). cbn [fst] in Hk. subst k'.
+      destruct (bp_t1_in k v Hin) as [(_ & nm & i & st & Hv & Hh & H0 & ->)|(_ & _ & [Hp _] & _)].
+      + pose proof (bp_relabel_lt nm i st Hv) as Hr. unfold bp_relabel in Hr. rewrite Hh, H0 in Hr. exact Hr.
+      + pose proof (bp_lt k Hp). lia.
+    - destruct (bp_t2_entry k H) as [He _]. destruct (bp_entry_placed s HI HF k He) as [Hp _]. pose proof (bp_lt k Hp). lia.
+  Qed.
+
+  Lemma bp_noino_in_rec j : forall recs, In j (noino_labels tbl recs) ->
+    exists nm st, In (LFile nm j st) recs /\ has_ino j tbl = false.
+  Proof.
+    intros recs H. unfold noino_labels in H. apply in_flat_map in H. destruct H as (n & Hn & Hj).
+    destruct n as [nm i st|nm dl kids]; [|destruct Hj]. destruct (has_ino i tbl) eqn:Hh; [destruct Hj|].
+    destruct Hj as [<-|[]]. exists nm, st. split; assumption.
+  Qed.
+
+  (* a name without inode is not the name of an Inode of the reopened object *)
+  Lemma bp_noino_not_in_t j : has_ino j tbl = false -> (j < nx)%nat -> ~ In j (ids t).
+  Proof.
+    intros Hh Hj. rewrite bp_t_split. unfold ids. rewrite map_app. intros H. apply in_app_or in H. destruct H as [H|H].
+    - apply in_map_iff in H. destruct H as ([k' v] & Hk & Hin). cbn [fst] in Hk. subst k'.
+      destruct (bp_t1_in j v Hin) as [(_ & nm & i & st & Hv & Hi & H0 & E)|(_ & _ & [Hp _] & _)].
+      + unfold bp_fresh in E. destruct (Nat.eqb_spec st i); [congruence|lia].
+      + apply ab_has_ino_in in Hp. unfold tbl in *. congruence.
+    - destruct (bp_t2_entry j H) as [He _]. destruct (bp_entry_placed s HI HF j He) as [Hp _].
+      apply ab_has_ino_in in Hp. unfold tbl in *. congruence.
+  Qed.
+
+  Theorem bp_reopened_inv : BInv r.
+  Proof.
+    pose proof bp_r_bl as Hbl.
+    constructor; rewrite ?Hbl; cbn [lroot linodes lnext lptr_size lptr_ext lspace].
+    - rewrite bp_r_boot2, bp_tbl_sum, (bp_ltotal_lmap_same lw_dblk); [apply (bi_space s HI)|intros [? ? ?|? ? ?]; reflexivity].
+    - rewrite bp_lname_lmap, bp_is_dir_lmap. apply (bi_root s HI).
+    - apply bp_lall_ok_lmap, (bi_tree s HI).
+    - apply (bi_ptr s HI).
+    - rewrite (bp_ltotal_lmap_same lw_ptr); [apply (bi_ptr_sum s HI)|intros [? ? ?|? ? ?]; reflexivity].
+    - unfold live. rewrite Hbl. cbn [lroot linodes]. split; [exact bp_t_nodup|]. split.
+      + intros k Hk. rewrite bp_r_erefs. pose proof (ab_erefs_nonneg k (bboot s)) as Hq.
+        pose proof (lrefcount_nonneg k (lmap_ino (bp_relabel nx tbl) (lroot l))) as Hrn.
+        rewrite bp_t_split in Hk. unfold ids in Hk. rewrite map_app in Hk. apply in_app_or in Hk. destruct Hk as [Hk|Hk].
+        * apply in_map_iff in Hk. destruct Hk as ([k' v] & Hkk & Hin). cbn [fst] in Hkk. subst k'.
+          assert (0 < lrefcount k (lmap_ino (bp_relabel nx tbl) (lroot l))); [|lia].
+          apply bp_refcount_lmap_pos.
+          destruct (bp_t1_in k v Hin) as [(_ & nm & i & st & Hv & Hh & H0 & ->)|(Hv & _ & [Hp1 Hp2] & Hr)].
+          -- exists nm, i, st. split; [exact Hv|]. unfold bp_relabel. rewrite Hh, H0. reflexivity.
+          -- destruct (bp_ref_visit l k Hr) as (nm & st & Hvis). exists nm, k, st. split; [exact Hvis|].
+             unfold bp_relabel. fold tbl in Hp2. destruct (Z.eqb_spec (len_of k tbl) 0); [contradiction|].
+             rewrite andb_false_r. reflexivity.
+        * destruct (bp_t2_entry k Hk) as [He _]. lia.
+      + intros k. rewrite bp_r_erefs. intros He. destruct (bp_placed_in_t k (bp_entry_placed s HI HF k He)) as (v & Hin & _).
+        eapply bp_in_ids, Hin.
+    - intros k Hk. unfold bp_fake in Hk. split.
+      + pose proof (lrefcount_nonneg k (lmap_ino (bp_relabel nx tbl) (lroot l))) as Hrn.
+        destruct (Z_lt_le_dec 0 (lrefcount k (lmap_ino (bp_relabel nx tbl) (lroot l)))) as [Hp|Hp]; [|lia].
+        apply bp_refcount_lmap_pos in Hp. destruct Hp as (nm & i & st & Hv & <-).
+        pose proof (bp_relabel_lt nm i st Hv). lia.
+      + intros Hin. pose proof (bp_t_ids_lt k Hin). lia.
+    - pose proof (bi_cat s HI) as HC.
+      assert (Hcase : bboot s = None \/ exists b, bboot s = Some b) by (destruct (bboot s) as [b|]; [right; exists b|left]; reflexivity).
+      destruct Hcase as [Hb|(b & Hb)].
+      { unfold r, reopened_gen. rewrite Hb. exact I. }
+      pose proof (bp_t_some b Hb) as Ht. rewrite Hb in HC. destruct HC as (_ & _ & C3 & C4).
+      unfold r, reopened_gen. rewrite Hb. fold l tbl nx t1. cbn [bboot cat_ok_of cat_recs bcat binos].
+      clear Ht. split; [|split; [|split; assumption]].
+      + change (linodes l) with tbl. destruct (noino_labels tbl (lvisit l)); discriminate.
+      + change (linodes l) with tbl. change (lnext l) with nx. intros j Hj. destruct (noino_labels tbl (lvisit l)) as [|a ns] eqn:En.
+        * destruct Hj as [<-|[]]. unfold bp_fake. split; [lia|]. intros Hin. pose proof (bp_t_ids_lt _ Hin). lia.
+        * rewrite <- En in Hj. destruct (bp_noino_in_rec j _ Hj) as (nm & st & Hv & Hh).
+          destruct (bp_rec_lt nm j st Hv) as [Hjl _]. unfold bp_fake. split; [lia|].
+          apply bp_noino_not_in_t; assumption.
+    - apply Forall_forall. intros [k v] Hin. cbn [snd]. rewrite bp_t_split in Hin. apply in_app_or in Hin.
+      destruct Hin as [Hin|Hin].
+      + destruct (bp_t1_in k v Hin) as [[-> _]|(_ & -> & _ & _)]; [unfold max_len; lia|apply (bp_len_nonneg s k HI)].
+      + assert (Hk : In k (ids t2)) by (eapply bp_in_ids, Hin). destruct (bp_t2_entry k Hk) as [He _].
+        pose proof (HK k He) as Hb. fold r t in Hb.
+        assert (Hint : In (k, v) t) by (rewrite bp_t_split; apply in_or_app; right; exact Hin).
+        rewrite (bp_t_len k v Hint) in Hb. pose proof (bp_len_nonneg s k HI) as Hn.
+        destruct (bp_entry_placed s HI HF k He) as [_ Hp2].
+        unfold blocks_of, ceiling_div, C, max_len in *. lia.
+  Qed.
 End Reopen.
+
+Print Assumptions bp_reopened_inv.
